@@ -193,7 +193,7 @@ func TestCheck(t *testing.T) {
 	defer r.Finish()
 	r.SetRule("cases = (identifier, server script, strict mode) for did:web [seeded grammar generator over 26 identifier classes x scripted server answers], " +
 		"(identifier) for did:jwk/did:key [seeded key/encoding variants, 3 repeated calls each, compared with a derivation written in the harness], " +
-		"(identifier|URL) for the DIDToURL/URLToDID round-trip law, and (history step, DID, resolve options, entry point) for local histories in a complete node. " +
+		"(identifier|URL) for the DIDToURL/URLToDID round-trip law [12 encoding features; ports drawn half from an enumerated set of notable ports (scheme defaults 443/80, neighbours, range ends), and a port sweep: notable ports x 9 path shapes x host shapes incl. the port-less sibling, with a collapse (injectivity) monitor; thorough: every port 1..65535], and (history step, DID, resolve options, entry point) for local histories in a complete node. " +
 		"Every case is one or more calls of the real resolver with every outbound request recorded. Non-trivial: the identifier was accepted by the DID parser so the resolver " +
 		"under test really ran (did:web, key methods), both conversions ran (round trip), or the DID exists in the node's store (local). Distinct by identifier/URL + script + options.")
 	r.Require(r.Pick(9000, 300000), r.Pick(4500, 150000))
